@@ -26,6 +26,16 @@ Proof. intros m H. simpl in H. repeat (destruct H as [<-|H]; [reflexivity|]). co
 Lemma gen_frame_kinds : rows_kind = "ROWS"%string /\ range_kind = "RANGE"%string.
 Proof. split; reflexivity. Qed.
 
+Lemma gen_spec_building : part_replaces = true /\ order_replaces = true.
+Proof. split; reflexivity. Qed.
+
+Lemma gen_bare_key_is_sparks : window_bare_key_is_spark_default = true.
+Proof. reflexivity. Qed.
+
+(** the placement a bare key ends up with in the emitted SQL: WindowSpec.orderBy either writes Spark's default explicitly
+    (ASC NULLS FIRST) or leaves the key bare, and then the execution engine's default (DuckDB: ASC NULLS LAST) applies *)
+Definition gen_bare_default : bool * bool := if window_bare_key_is_spark_default then (false, true) else (false, false).
+
 (** the property at full strength for the specification part: every window spec a user can write means,
     on the engine, the window Spark means *)
 Definition C08_full (bare_default : bool * bool) : Prop :=
@@ -38,6 +48,31 @@ Theorem C08_partial : forall bare_default u,
   model_wspec order_flags bare_default get_value_and_side u = Some (spark_wspec u).
 Proof. intros bd u. exact (model_is_spark order_flags bd get_value_and_side u gen_order_flags_are_sparks). Qed.
 Print Assumptions C08_partial.
+
+(** proved in full since `fix: a bare window order key gets Spark's default placement`: no restriction on the keys *)
+Theorem C08_holds : C08_full gen_bare_default.
+Proof.
+  intros u Hfr.
+  exact (model_is_spark_all order_flags gen_bare_default get_value_and_side u gen_order_flags_are_sparks eq_refl Hfr).
+Qed.
+Print Assumptions C08_holds.
+
+(** specs are built by any sequence of partitionBy / orderBy / rowsBetween / rangeBetween calls: the spec the
+    implementation builds is the spec Spark builds (the last call of each kind decides), for every call sequence *)
+Theorem C08_spec_building : forall plan,
+  build part_replaces order_replaces plan = spark_build plan
+  /\ spark_build plan = mkU (last_part plan []) (last_order plan []) (last_frame plan None).
+Proof.
+  intros plan. split.
+  - exact (build_is_sparks _ _ plan (proj1 gen_spec_building) (proj2 gen_spec_building)).
+  - exact (spark_build_last_wins plan (mkU [] [] None)).
+Qed.
+Print Assumptions C08_spec_building.
+
+Example C08_spec_building_nontrivial :
+  spark_build [SFrame (true, -1, 1); SPart [ECol "k"]; SOrder [(ECol "v", MDesc)]; SPart [ECol "p"]; SOrder [(ECol "i", MBare)]]
+  = mkU [ECol "p"] [(ECol "i", MBare)] (Some (true, -1, 1)).
+Proof. reflexivity. Qed.
 
 (** frames: for every start/end in Spark's domain and every row distance / key difference that can occur *)
 Theorem C08_frames : bounds_agree get_value_and_side.
